@@ -7,6 +7,7 @@ after `Sieve.sieveBlock`), `hitSum hits x` the total added at position `x`, `byt
 -/
 import Ymq.Lemmas.SieveLogCover
 import Ymq.Lemmas.SieveTableExact
+import Ymq.Lemmas.SieveLogTables
 import Ymq.Props.C13
 
 namespace Ymq.C13
@@ -241,6 +242,65 @@ theorem accumulator_spec_small (dbg : Bool) (fb : FB) (hfb : fb.WF) (r1 r2 : Arr
   intro x hx'
   have := hx x hx'
   simpa [hitSum_nil] using this
+
+/-- `accumulator_spec_tables`: the full closed form for factor bases below 2^18 (no `SieveTableLarge`: every prime
+≥ 32768 is in one of the size-class tables of 16, 17 or 18 bits), on the path `Sieve::new` (fresh, or recycled tables
+of the same `nblocks`) → `b < nblocks` rounds → `sieve_block()`, when no size-class table has counted an overflow
+(`n_overflows = 0`, the case in which nothing can be lost) and the two roots of every prime ≥ 32768 differ
+(`RootsDistinct`: the code registers the root twice otherwise). Byte `x` of block `b` is
+`Σ_{k = idxskip}^{2·nS−1} rootF k + Σ_{pidx = nS}^{#primes−1} tabF pidx`: the sum of `bitlen p` over the non-skipped
+primes `p < 32768` with a root at `x` (once per distinct root) plus the sum of `bitlen p` over ALL primes `p ≥ 32768`
+with `(b·32768 + x) mod p ∈ {r1, r2}` — exactly in the checked profile, modulo 256 in release. `table_bucket_exact`
+is carried through the nested loops of `Sieve::new` (`new_tablesExact`: which adds are made for which prime and root
+into which bucket) and through the read loops of `sieve_block` (`tableHits_sum`). -/
+theorem accumulator_spec_tables (dbg : Bool) (fb : FB) (hfb : fb.WF) (r1 r2 : Array Nat) (hr : RootsOK fb r1 r2)
+    (hd : RootsDistinct fb r1 r2) (offset : Int) (nblocks : Nat) (recycled : Option (Array Table × Array LTable))
+    (hrec : RecycledBlens nblocks recycled)
+    (s0 s1 s : State) (h0 : Sieve.new offset nblocks fb r1 r2 recycled = some s0)
+    (b : Nat) (hb : b < nblocks) (h1 : runBlocks fb b s0 = some s1) (h2 : sieveBlock fb s1 = some s)
+    (nS : Nat) (hnS : fb.ibl[16]? = some nS) (hl0 : s.ltables.size = 0)
+    (hov : ∀ (ti : Nat) (t : Table), s.tables[ti]? = some t → t.nOverflows = 0)
+    (blk : Array Nat) (h : blkOf dbg fb s = some blk) :
+    ∀ x, x < 32768 →
+      byteAt blk x % 256 = (rangeSum (rootF fb r1 r2 b x) s.idxskip (2 * nS - s.idxskip) +
+        rangeSum (tabF fb r1 r2 (nblocks * BLOCK) (b * BLOCK + x)) nS (fb.primes.size - nS)) % 256 ∧
+      (dbg = true → byteAt blk x = rangeSum (rootF fb r1 r2 b x) s.idxskip (2 * nS - s.idxskip) +
+        rangeSum (tabF fb r1 r2 (nblocks * BLOCK) (b * BLOCK + x)) nS (fb.primes.size - nS)) := by
+  have hrecOK := hrec.ok
+  obtain ⟨th, hth, _, hx⟩ := accumulator_spec_partial dbg fb hfb r1 r2 hr offset nblocks recycled hrecOK s0 s1 s h0 b
+    h1 h2 nS hnS blk h
+  obtain ⟨hb0, hn0, _, hinv0⟩ := new_spec hfb hr hrecOK hnS h0
+  obtain ⟨hinv1, hb1, _, _⟩ := runBlocks_spec hfb hnS b 0 s0 s1 hinv0 h1
+  obtain ⟨hinv2, _, hb2, _, _, ht2, hlt2, _⟩ := sieveBlock_spec hfb hnS hinv1 h2
+  obtain ⟨et, elt⟩ := runBlocks_tables fb b s0 s1 h1
+  have etab : s.tables = s0.tables := ht2.trans et
+  have hblk : s.blkNo = b := by rw [hb2, hb1, hb0]; omega
+  obtain ⟨maxprime, hmax, hts, hlts⟩ := hinv2.tsize
+  have hml : bitlen maxprime ≤ 18 := by omega
+  have hex : TablesExact fb r1 r2 (nblocks * BLOCK) nblocks s.tables := by
+    rw [etab]; exact new_tablesExact hrec h0 (by rw [← etab]; exact hov)
+  have hnd : ∀ (tidx idx1 : Nat), fb.ibl[tidx + 16]? = some idx1 → ∀ pidx, idx1 ≤ pidx →
+      (offsL fb r1 r2 (nblocks * BLOCK) pidx).Nodup := by
+    intro tidx idx1 hi pidx hle
+    apply offsL_nodup hfb hr hd
+    intro p hp
+    have := hfb.ibl_spec _ _ _ _ hi hp
+    have h16 : ¬ bitlen p < 15 + 1 := by omega
+    rw [bitlen_lt_succ_iff] at h16
+    norm_num at h16; exact h16
+  intro x hx'
+  have hsum := tableHits_sum hex (by omega) hl0 hnd (x := x) (by simp only [BLOCK]; exact hx') hth
+  rw [hblk, tableSum_collapse hfb hr hnS hmax hml hts] at hsum
+  have := hx x hx'
+  rw [hsum] at this
+  exact this
+
+/-- non-vacuity of `accumulator_spec_tables`: a factor base with a 16-bit and a 17-bit prime (two size-class tables,
+no large table), `new` and `sieve_block` return and no overflow is counted. -/
+example : ((Sieve.new 0 1 (FB.ofPrimes #[3, 5, 32771, 65537]) #[1, 2, 7, 65000] #[2, 3, 9, 70] none).bind fun s0 =>
+    (sieveBlock (FB.ofPrimes #[3, 5, 32771, 65537]) s0).map fun s =>
+      (s.tables.size, s.ltables.size, s.tables.all fun t => t.nOverflows == 0)) = some (2, 0, true) := by
+  decide +kernel
 
 /-- `accumulator_no_overflow_small`: for factor bases whose primes are all below the block size, under the hypothesis of
 `log_sum_bound` — at every position `x` the non-skipped primes with a root at `x` (true roots: they divide the
